@@ -203,8 +203,9 @@ class Origins:
             # elements of a collection parameter: if the caller passed a local container (which holds element
             # origins directly) these are its contents, otherwise the elements of the passed object
             out = set()
+            contents = d[1][1] in amap.get("\0contents", ())
             for x in amap[d[1][1]]:
-                out.add(x if x[0] in ("hit", "elem") else ("elem", x))
+                out.add(x if (contents or x[0] in ("hit", "elem")) else ("elem", x))
             return out
         if k == "op":
             return set(amap.get(d[1], {UNKNOWN}))
@@ -229,8 +230,14 @@ class Origins:
 
     def call_amap(self, h: FunctionInfo, call: ast.Call, r: FnOrigins, local) -> Dict[str, Set]:
         amap = {}
+        contents = set()
         for p, a in zip(h.params, call.args):
             amap[p] = self.ev(a, r, local)
+            # a literal tuple / list / set or a local container holds its element origins directly
+            if isinstance(a, (ast.Tuple, ast.List, ast.Set)) or (isinstance(a, ast.Name) and a.id not in r.fi.params) or (
+                    isinstance(a, ast.Call) and isinstance(a.func, ast.Name) and a.func.id in ("list", "tuple", "set", "sorted")):
+                contents.add(p)
+        amap["\0contents"] = contents
         return amap
 
     def ev(self, e, r: FnOrigins, local: Optional[Dict[str, Set]] = None) -> Set:
